@@ -66,8 +66,12 @@ def call(op, xs, form, join, cols, rng=None):
         args = (list(objs[:n // 2]), list(objs[n // 2:]))
     else:
         raise ValueError(form)
+    ident = lambda m: ([k + 1 for k, x in enumerate(objs) if m is x] + [0])[0]
+    conts = [a for a in args if isinstance(a, list)]          # the lists handed over: which operands they hold, before and after
+    before = [[ident(m) for m in c] for c in conts]
     err, res = outcome(lambda: f(*args, **kw))
-    o = {'op': op, 'xs': xs, 'form': form, 'join': join, 'cols': cols, 'after': [proj(x) for x in objs]}
+    o = {'op': op, 'xs': xs, 'form': form, 'join': join, 'cols': cols, 'after': [proj(x) for x in objs],
+         'lists': before, 'lists_after': [[ident(m) for m in c] for c in conts]}
     o['out'] = err if err is not None else {'kind': 'val', 'v': proj(res)}
     return o
 
@@ -118,6 +122,8 @@ def s2c(ctx, report, cases, budget):
             out = o['out']
             if o['after'] != xs:
                 report('operand_changed', case_key(o), {'after': o['after']})
+            elif o['lists_after'] != o['lists']:
+                report('container_changed', case_key(o), {'lists': o['lists'], 'lists_after': o['lists_after']})
             elif out['kind'] == 'exc':
                 report('raised', case_key(o), {'expected_one_of': e['out'], 'observed': out})
             elif collapse(out['v']) not in want:
